@@ -36,11 +36,23 @@ def token_offsets(text):
     return out
 
 
-def run_reference(case, items, file, evalfn, max_paths=400):
+def flatten_ref_error(variant, name):
+    d = 0
+    while variant == 'Include':
+        d += 1
+        variant, name = name
+    return variant, name, d
+
+
+def run_reference(case, items, file, evalfn, max_paths=400, ref_files=None):
     """all reference cases: list of results with .pc and .value = ('ok', toks, table) | ('err', variant, name)"""
     def body(it):
         _, info = E.make_table(it, case)
         st = RefState(it, ppref.table_from_case(case, info))
+        st.files = ref_files or {}
+        fs = E.make_fs(case)
+        st.exists = fs.exists
+        st.include_paths = list(case.include_paths)
         strip = E.flag(it, case.strip, 'strip_comments')
         if not isinstance(strip, bool):
             strip = it.decide(strip, 'ref_strip')
@@ -50,8 +62,9 @@ def run_reference(case, items, file, evalfn, max_paths=400):
         try:
             evalfn(st, items, file, strip, ign)
         except RefError as e:
-            return ('err', e.variant, e.name)
-        return ('ok', st.out, st.table)
+            v, n, d = flatten_ref_error(e.variant, e.name)
+            return ('err', v, n, d, list(st.opened))
+        return ('ok', st.out, st.table, list(st.opened))
     ex = Explorer(E.prog(), Models(), body, max_paths=max_paths)
     return ex.run(), ex
 
@@ -204,14 +217,25 @@ def origin_mismatches(case, files_text, real, toks):
         if c:
             continue
         org = origins[i]
+        # neighbouring tokens
+        prev_ref = next_ref = None
+        for (tt, o), ref in zip(offs, toks):
+            if o + len(tt.encode('utf-8')) <= i:
+                prev_ref = ref
+            elif o > i and next_ref is None:
+                next_ref = ref
+        inside_macro = prev_ref is not None and next_ref is not None and prev_ref.prov[0] == 'macro' and next_ref.prov == prev_ref.prov
+        if inside_macro:
+            pv = prev_ref.prov
+            if pv[1] is None:
+                if org is not None:
+                    notes.append('blank inside caller-supplied expansion at output %d has origin %r' % (i, org))
+            elif org is None or org[0] != pv[1] or (pv[2] is not None and org[1] < pv[2]):
+                notes.append('blank inside macro expansion at output %d: origin %r, expected file %r offset >= %r' % (i, org, pv[1], pv[2]))
+            continue
         if org is None:
-            # trivia without origin: allowed only directly inside/after synthesised or caller-define text
-            prev_synth = False
-            for (tt, o), ref in zip(offs, toks):
-                if o + len(tt.encode('utf-8')) <= i:
-                    prev_synth = ref.prov[0] == 'synth' or (ref.prov[0] == 'macro' and ref.prov[1] is None)
-                else:
-                    break
+            # trivia without origin: allowed only directly after synthesised or caller-define text
+            prev_synth = prev_ref is not None and (prev_ref.prov[0] == 'synth' or (prev_ref.prov[0] == 'macro' and prev_ref.prov[1] is None))
             if not prev_synth:
                 notes.append('whitespace/comment byte at output %d (%r) has no origin' % (i, tb[i:i + 1].decode('utf-8', 'replace')))
         else:
@@ -219,6 +243,11 @@ def origin_mismatches(case, files_text, real, toks):
             if src is not None:
                 sb = src.encode('utf-8')
                 if not (0 <= org[1] < len(sb)) or sb[org[1]] != tb[i]:
+                    # blanks that end a macro expansion carry the expansion's provenance (file of the
+                    # definition, offset not before the body): accepted by the property's statement
+                    if prev_ref is not None and prev_ref.prov[0] == 'macro' and prev_ref.prov[1] is not None and \
+                            org[0] == prev_ref.prov[1] and (prev_ref.prov[2] is None or org[1] >= prev_ref.prov[2]):
+                        continue
                     got = sb[org[1]:org[1] + 1].decode('utf-8', 'replace') if 0 <= org[1] < len(sb) else '<out of range>'
                     notes.append('trivia byte at output %d (%r) maps to %r where the file has %r' % (i, tb[i:i + 1].decode('utf-8', 'replace'), org, got))
     return notes
@@ -237,12 +266,12 @@ class CrossResult:
 
 
 def crosscheck(case, items, evalfn, files_text=None, kinds=('tokens', 'table', 'origin'), want_origins=True,
-               max_paths=400):
+               max_paths=400, ref_files=None):
     """run both sides and compare on all feasible intersections"""
     cr = CrossResult()
     real, ex = run_pp_case(case, want_origins=want_origins and 'origin' in kinds, max_paths=max_paths)
     cr.explorers.append(ex)
-    ref, ex2 = run_reference(case, items, case.path, evalfn, max_paths=max_paths)
+    ref, ex2 = run_reference(case, items, case.path, evalfn, max_paths=max_paths, ref_files=ref_files)
     cr.explorers.append(ex2)
     if ex.truncated or ex2.truncated:
         raise Inconclusive('path budget exhausted on case %s' % case.label)
@@ -269,12 +298,16 @@ def crosscheck(case, items, evalfn, files_text=None, kinds=('tokens', 'table', '
             if fv[0] == 'err':
                 if rv['ok']:
                     cr.mismatches.append({'kind': 'tokens', 'note': 'reference expects error %s(%s), real returns Ok %r' % (fv[1], fv[2], rv['text']),
-                                          'model': m, 'real': rv, 'ref': fv[1:]})
+                                          'model': m, 'real': rv, 'ref': list(fv[1:4])})
                 else:
                     core, d = err_core(rv['error'])
-                    if core['variant'] != fv[1] or (fv[2] is not None and core.get('name') != fv[2]):
-                        cr.mismatches.append({'kind': 'tokens', 'note': 'error differs: real %r, reference %s(%s)' % (rv['error'], fv[1], fv[2]),
-                                              'model': m, 'real': rv, 'ref': fv[1:]})
+                    got_name = core.get('name', core.get('path'))
+                    if core['variant'] != fv[1] or (fv[2] is not None and got_name != fv[2]) or d != fv[3]:
+                        cr.mismatches.append({'kind': 'tokens', 'note': 'error differs: real %r, reference %s(%s) under %d Include level(s)' % (rv['error'], fv[1], fv[2], fv[3]),
+                                              'model': m, 'real': rv, 'ref': list(fv[1:4])})
+                if 'opened' in kinds and rv.get('opened') != fv[4]:
+                    cr.mismatches.append({'kind': 'opened', 'note': 'files opened differ: real %r, reference %r' % (rv.get('opened'), fv[4]),
+                                          'model': m, 'real': rv, 'ref': fv[4]})
                 continue
             if not rv['ok']:
                 cr.mismatches.append({'kind': 'tokens', 'note': 'real returns error %r, reference expects tokens %r' % (rv['error'], [t.text for t in fv[1]]),
@@ -294,6 +327,9 @@ def crosscheck(case, items, evalfn, files_text=None, kinds=('tokens', 'table', '
                     if mm is not None:
                         cr.mismatches.append({'kind': 'table', 'note': '; '.join(notes), 'model': mm, 'real': rv,
                                               'ref': {k: str(v) for k, v in fv[2].items()}})
+            if 'opened' in kinds and rv.get('opened') != fv[3]:
+                cr.mismatches.append({'kind': 'opened', 'note': 'files opened differ: real %r, reference %r' % (rv.get('opened'), fv[3]),
+                                      'model': m, 'real': rv, 'ref': fv[3]})
             if 'origin' in kinds and tokens_ok and rv.get('origins') is not None:
                 notes = origin_mismatches(case, files_text, rv, fv[1])
                 if notes:
